@@ -344,7 +344,10 @@ Definition ct_add (t : ctree) (s : Z) : ctree :=
   if negb (contains (ct_mask t) s) then t else ct_insert s t.
 
 (* star tree over the namespace: one leaf per taxon bit, in namespace order *)
-Definition ct_star (all : Z) (bits : list Z) : ctree := CT all (map (fun b => CT b []) bits).
+(* the root edge's leafset bitmask is what encode_bipartitions computes on the star: the OR of
+   the leaves (equal to all_taxa_bitmask() unless the namespace has vacated bits) *)
+Definition ct_star (all : Z) (bits : list Z) : ctree :=
+  CT (fold_left Z.lor bits 0) (map (fun b => CT b []) bits).
 
 Fixpoint ct_clades (t : ctree) : list Z :=
   match t with
@@ -715,7 +718,8 @@ Inductive op :=
 | OConsensus (min_freq : option (option Q))         (* None: default argument; Some None: min_freq=None *)
 | OSummarize (tgt : nat) (o : sopts)                (* on a copy of pool tree tgt *)
 | OCollapse (tgt : nat) (min_freq : option Q)       (* None: default argument *)
-| OScores (product ext : bool)
+| OScores (product ext : bool) (restore_at : option nat)   (* restore the tree at the index the library chose
+                                                               (binary64 near-ties may differ from the exact arg-max) *)
 | OLenSummaries                                     (* sd.split_edge_length_summaries *)
 | OAddSplitCount (s : Z) (x : Q).
 
@@ -784,6 +788,24 @@ Fixpoint filter_map {A B} (f : A -> option B) (l : list A) : list B :=
 
 Definition zsort (l : list Z) : list Z := sort_by Z.leb l.
 
+Fixpoint dedup_sorted (l : list Z) : list Z :=
+  match l with
+  | [] => []
+  | x :: r => match r with
+              | [] => [x]
+              | y :: _ => if Z.eqb x y then dedup_sorted r else x :: dedup_sorted r
+              end
+  end.
+
+Fixpoint nodupb (l : list Z) : bool :=
+  match l with [] => true | x :: r => negb (zmem x r) && nodupb r end.
+
+(* hypotheses of consensus_tree_clades: one distinct positive single bit per taxon, at least two
+   taxa, all_taxa_bitmask = OR of the bits (fails for namespaces with vacated bits) *)
+Definition ns_okb (all : Z) (bits : list Z) : bool :=
+  forallb (fun b => (0 <? b) && is_single b) bits && nodupb bits
+  && (2 <=? Z.of_nat (length bits)) && (fold_left Z.lor bits 0 =? all).
+
 Definition step (e : env) (w : world) (o : op) : world * out :=
   let a := w_ta w in
   let d := ta_sd a in
@@ -816,12 +838,15 @@ Definition step (e : env) (w : world) (o : op) : world * out :=
     let rarg := match e_path e with PathSD => None | PathTA => ta_rooting a end in
     let '(d', (_, acc, tr, r)) := consensus d (e_all e) (e_bits e) mf' rarg in
     let rooted := truthy r in
-    (* the set-level and the tree-level insertion must agree; otherwise report garbage *)
-    let cl_tree := filter (fun m => negb (m =? e_all e)) (ct_clades tr) in
-    if list_eqb Z.eqb (zsort acc) (zsort cl_tree)
+    let real := fold_left Z.lor (e_bits e) 0 in
+    (* the answer is read off the tree the coded insertion builds; on a namespace without
+       vacated bits the set-level selection must give the same clades (consensus_tree_clades),
+       otherwise report garbage *)
+    let cl_tree := filter (fun m => negb (m =? ct_mask tr)) (ct_clades tr) in
+    if (negb (ns_okb (e_all e) (e_bits e)) || list_eqb Z.eqb (zsort acc) (zsort cl_tree))
        && list_eqb Z.eqb (zsort (ct_leaves tr)) (zsort (e_bits e))
     then (mkWorld (with_sd a d'),
-          UConsensus (zsort (filter_map (nontrivial_norm (e_all e) rooted) acc)) r)
+          UConsensus (dedup_sorted (zsort (filter_map (nontrivial_norm real rooted) cl_tree))) r)
     else (mkWorld (with_sd a d'), UErr OtherErr)
   | OSummarize tgt so =>
     match nth_error (e_targets e) tgt with
@@ -839,12 +864,12 @@ Definition step (e : env) (w : world) (o : op) : world * out :=
        match r with Ok t' => UTree t' | Err x => UErr x | OutOfFuel => UErr Hang end)
     | None => (w, UErr IndexErr)
     end
-  | OScores product ext =>
+  | OScores product ext restore_at =>
     let '(a', (sc, idx)) := ta_scores product a ext in
     (mkWorld a',
      UScores sc idx
-             (match idx with
-              | Some i => zsort (filter_map (nontrivial_norm (e_all e) (truthy (ta_rooting a))) (ta_restore a (e_all e) i))
+             (match (match restore_at with Some i => Some i | None => idx end) with
+              | Some i => zsort (filter_map (nontrivial_norm (fold_left Z.lor (e_bits e) 0) (truthy (ta_rooting a))) (ta_restore a (e_all e) i))
               | None => []
               end))
   | OLenSummaries => (w, USummaries (calc_summaries (elens d)))
@@ -974,9 +999,6 @@ Definition step_close (m ob : out * snapshot) : bool :=
 Definition tree_compatible (all : Z) (rooted : bool) (t : tree_in) : bool :=
   let ms := map (fun r => fsb_denorm all rooted (r_split r)) (t_recs t) in
   forallb (fun a => forallb (fun b => compat all a b) ms) ms.
-
-Fixpoint nodupb (l : list Z) : bool :=
-  match l with [] => true | x :: r => negb (zmem x r) && nodupb r end.
 
 Definition tree_nodup (t : tree_in) : bool := nodupb (map r_split (t_recs t)).
 
